@@ -731,15 +731,16 @@ Qed.
 (* buffered data are handed out without touching reader, pool or program map *)
 Lemma buffer_calls : forall B s, d_buffer s = B ->
   exists s', nd_iter (length B) s = (map Ok B, s') /\ d_buffer s' = [] /\ d_pool s' = d_pool s /\ d_pm s' = d_pm s /\
-             (forall bufs, at_bufs s bufs -> at_bufs s' bufs).
+             (forall bufs, at_bufs s bufs -> at_bufs s' bufs) /\ d_reader s' = d_reader s.
 Proof using.
   induction B as [|b B IH]; intros s HB.
-  - exists s. cbn [length nd_iter map]. split; [reflexivity|]. split; [exact HB|]. split; [reflexivity|]. split; [reflexivity|]. intros bufs H; exact H.
+  - exists s. cbn [length nd_iter map]. split; [reflexivity|]. split; [exact HB|]. split; [reflexivity|]. split; [reflexivity|].
+    split; [intros bufs H; exact H|reflexivity].
   - cbn [length nd_iter map]. unfold nd. rewrite (buffered_first P None no_skip s b B HB).
     set (s1 := mk_dstate B (d_pb s) (d_pool s) (d_pm s) (d_reader s) (d_opt_size s) (d_groups s) (d_consulted s)).
-    destruct (IH s1 eq_refl) as (s' & E & H1 & H2 & H3 & H4). fold (nd P). rewrite E.
+    destruct (IH s1 eq_refl) as (s' & E & H1 & H2 & H3 & H4 & H5). fold (nd P). rewrite E.
     exists s'. split; [reflexivity|]. split; [exact H1|]. split; [exact H2|]. split; [exact H3|].
-    intros bufs Hat. apply H4. exact Hat.
+    split; [intros bufs Hat; apply H4; exact Hat|exact H5].
 Qed.
 
 Lemma feed_nil_inv pl pm pl1 pm1 o : feed P pl pm [] = Some (pl1, pm1, o) -> pl1 = pl /\ pm1 = pm /\ o = [].
@@ -874,7 +875,7 @@ Proof using SP_parses tbl_pes.
         destruct (nd_reach (map ev_obs qe) (map ev_bytes qe) sd (obs sp1) (ev_bytes (EPkt x1 u1 k1 n1 sp1))
                     (map ev_bytes (pre ++ EPkt x u k n sp :: post))
                     pl pm pl1 pm1 d1 ds1 Hbuf Hat (evs_seen qe Hsp1) Hparse Hq Hf1) as (s1 & Hnd1 & Hat1 & Hb1 & Hp1 & Hm1).
-        destruct (buffer_calls ds1 s1 Hb1) as (s2 & Hit2 & Hb2 & Hp2 & Hm2 & Hat2).
+        destruct (buffer_calls ds1 s1 Hb1) as (s2 & Hit2 & Hb2 & Hp2 & Hm2 & Hat2 & _).
         pose proof (IH _ pend1 pl1 pm1 _ x u k n sp post [] s2 d ds Hinv1 Hok Hreg1 Hseq1) as IH'.
         rewrite Ed in IH'. cbn [fst snd app] in IH'.
         destruct IH' as (sn & s' & Hit & Hnd & Hat' & Hb'); try assumption.
@@ -884,6 +885,56 @@ Proof using SP_parses tbl_pes.
         -- exists sn, s'. split; [|split; [exact Hnd|split; assumption]].
            cbn [app length]. rewrite app_length. cbn [nd_iter]. rewrite Hnd1, (nd_iter_app (length ds1) (length o2) s1), Hit2, Hit.
            cbn [map]. rewrite map_app. reflexivity.
+Qed.
+
+(* the invariant after a beginning of the stream *)
+Lemma prefix_inv : forall pre s pend pl pm reg post,
+  Inv s pend pl pm reg -> evs_ok reg (pre ++ post) ->
+  (forall y, In y (reg ++ announced (pre ++ post)) -> y <> C_PIDNull /\ pes y = false) ->
+  (forall y, pid_seq y (s y) (proj y (pre ++ post))) ->
+  exists s' pl' pm' reg', Inv s' (snd (delivered pend pre)) pl' pm' reg' /\
+    (forall y, pid_seq y (s' y) (proj y post)).
+Proof using SP_parses tbl_pes.
+  induction pre as [|e pre IH]; intros s pend pl pm reg post Hinv Hok Hreg Hseq.
+  - exists s, pl, pm, reg. split; [exact Hinv|exact Hseq].
+  - destruct e as [f|x u k n sp]; cbn [app delivered] in *.
+    + destruct Hok as [Hf Hok].
+      destruct (step_fill s pend pl pm reg f Hinv ltac:(intros y Hy; apply Hreg, in_or_app; left; exact Hy) Hf) as (pl1 & _ & Hinv1).
+      apply (IH s pend pl1 pm reg post Hinv1 Hok Hreg Hseq).
+    + destruct Hok as (Hkind & Hin & Htbl & Hok). rewrite announced_cons in Hreg.
+      assert (Hseqx : pid_seq x (s x) ((u, k, n, sp) :: proj x (pre ++ post))).
+      { specialize (Hseq x). cbn [proj] in Hseq. rewrite Z.eqb_refl in Hseq. exact Hseq. }
+      destruct (step_pkt s pend pl pm reg Hinv ltac:(intros y Hy; apply Hreg, in_or_app; left; exact Hy) x u k n sp _
+                  ltac:(intros y Hy; apply Hreg, in_or_app; right; apply in_or_app; left; exact Hy) Hkind Hin Htbl Hseqx)
+        as (pl1 & pm1 & _ & Hinv1).
+      destruct (ev_out pend x u k n sp) as [o1 pend1] eqn:Eo. cbn [fst snd] in Hinv1.
+      destruct (IH _ pend1 pl1 pm1 _ post Hinv1 Hok) as (s' & pl' & pm' & reg' & Hinv' & Hseq').
+      * intros y Hy. apply Hreg. destruct (completes u k n); [rewrite <- app_assoc in Hy; exact Hy|cbn [app]; exact Hy].
+      * intros y. destruct (Z.eq_dec y x) as [->|Hne].
+        -- rewrite supd_same. cbn [pid_seq] in Hseqx. apply Hseqx.
+        -- rewrite (supd_other _ _ _ _ Hne). specialize (Hseq y). cbn [proj] in Hseq. destruct (x =? y) eqn:E; [lia|exact Hseq].
+      * exists s', pl', pm', reg'. destruct (delivered pend1 pre) as [o2 pend2]. cbn [snd] in *. split; assumption.
+Qed.
+
+(* the packet completing a table unit delivers exactly the data of that unit *)
+Lemma completing_out s pend pl pm reg x u k n sp tlx :
+  Inv s pend pl pm reg -> kind_ok x u -> completes u k n = true ->
+  pid_seq x (s x) ((u, k, n, sp) :: tlx) ->
+  exists p0, fst (ev_out pend x u k n sp) = unit_data x u p0.
+Proof using SP_parses tbl_pes.
+  intros Hinv Hkind Hc Hseq. cbn [pid_seq] in Hseq. destruct Hseq as (_ & Hhead & _).
+  assert (Epsi : is_psi u = true) by (unfold completes in Hc; destruct (is_psi u); [reflexivity|discriminate]).
+  unfold kind_ok in Hkind. rewrite Epsi in Hkind. destruct Hkind as [Htp Htx].
+  assert (Hx : x <> C_PIDNull) by (unfold table_pid_ok, C_PIDNull in *; lia).
+  pose proof (iv_pid _ _ _ _ _ Hinv x Hx) as Hpx. unfold ev_out. rewrite Hc.
+  destruct (k =? 0)%nat eqn:Ek; cbn [fst].
+  - destruct Hhead as (_ & _ & Hprev). exists (sp_pkt sp). rewrite upd_same.
+    destruct (s x) as [[u0 d0]|]; unfold pid_inv in Hpx.
+    + exfalso. destruct Hprev as (Hp0 & _). destruct Hpx as (_ & _ & _ & Hk0 & _). unfold kind_ok in Hk0. rewrite Hp0 in Hk0.
+      apply (tbl_pes x Htx), Hk0.
+    + destruct Hpx as [_ ->]. reflexivity.
+  - destruct Hhead as (_ & _ & Hprev). destruct (s x) as [[u0 d0]|]; [|contradiction]. destruct Hprev as [-> _].
+    destruct Hpx as (_ & _ & _ & _ & _ & Hp). exists (hd_pkt d0). cbn [app]. exact Hp.
 Qed.
 
 End Domain.
@@ -1345,6 +1396,69 @@ Proof.
   - exists sn, s'. split; [exact H1|]. split; [exact H2|]. split; [|exact H4].
     destruct H3 as (_ & _ & Hr & _). rewrite Hr. unfold ev_bytes. symmetry. apply flat_map_concat_map.
 Qed.
+
+Lemma stream_hyps :
+  evs_ok pidl (table_pid (rs_pids rs)) (pes_pid (rs_pids rs)) [] (rs_events rs) /\
+  (forall y, In y ([] ++ announced (rs_events rs)) -> y <> C_PIDNull /\ pes_pid (rs_pids rs) y = false) /\
+  (forall y, pid_seq SP y None (proj y (rs_events rs))).
+Proof.
+  pose proof Hwf as (Hsorted & Hall & Hproj & Hfill & Hpat & Hann). split; [|split].
+  - apply (evs_ok_intro rs); [|exact Hfill|exact Hpat].
+    intros x' u' k' n' p' H. destruct (event_facts SP rs Hwf x' u' k' n' p' H) as (A & B & _). split; assumption.
+  - cbn [app]. intros y Hy. destruct (Hann y Hy) as [Hn1 Hn2]. split; [exact Hn1|].
+    unfold pes_pid. destruct (units_of (rs_pids rs) y) as [|c l] eqn:E; [reflexivity|].
+    rewrite (Hn2 c ltac:(left; reflexivity)). reflexivity.
+  - intros y. apply (stream_seq SP SP_parses rs Hwf).
+Qed.
+
+(* ... and the other data of the unit follow from the buffer, the reader staying where it is *)
+Theorem delivered_at_all pre x u k n sp post d ds :
+  rs_events rs = pre ++ EPkt x u k n sp :: post ->
+  fst (ev_out (snd (delivered no_pend pre)) x u k n sp) = d :: ds ->
+  exists sn s' s'',
+    nd_iter (length (fst (delivered no_pend pre))) (init_dstate (new_reader (StreamSpec.stream_bytes rs) None Seekable) 188) =
+      (map Ok (fst (delivered no_pend pre)), sn) /\
+    nd full_parsers sn = (Ok d, s') /\
+    r_rest (d_reader s') = flat_map (fun e => spkt_bytes (ev_pkt e)) post /\
+    nd_iter (length ds) s' = (map Ok ds, s'') /\
+    r_rest (d_reader s'') = flat_map (fun e => spkt_bytes (ev_pkt e)) post.
+Proof.
+  intros Hev Hout. destruct (delivered_at pre x u k n sp post d ds Hev Hout) as (sn & s' & H1 & H2 & H3 & H4).
+  destruct (buffer_calls ds s' H4) as (s'' & Hit & _ & _ & _ & _ & Hrd).
+  exists sn, s', s''. repeat (split; [assumption|]). rewrite Hrd. exact H3.
+Qed.
+
+(* C02, PAT / PMT: the packet that completes a table unit u on PID x delivers exactly the data of u (one datum per
+   section); the NextData call that returns the first of them is call number |data delivered before| + 1 and has read
+   the stream exactly up to the end of that packet; the remaining sections come from the buffer *)
+Theorem pat_pmt_at_last_packet pre x u k n sp post :
+  rs_events rs = pre ++ EPkt x u k n sp :: post -> completes u k n = true ->
+  exists p0, fst (ev_out (snd (delivered no_pend pre)) x u k n sp) = unit_data x u p0 /\
+  forall d ds, unit_data x u p0 = d :: ds ->
+  exists sn s' s'',
+    nd_iter (length (fst (delivered no_pend pre))) (init_dstate (new_reader (StreamSpec.stream_bytes rs) None Seekable) 188) =
+      (map Ok (fst (delivered no_pend pre)), sn) /\
+    nd full_parsers sn = (Ok d, s') /\
+    r_rest (d_reader s') = flat_map (fun e => spkt_bytes (ev_pkt e)) post /\
+    nd_iter (length ds) s' = (map Ok ds, s'') /\
+    r_rest (d_reader s'') = flat_map (fun e => spkt_bytes (ev_pkt e)) post.
+Proof.
+  intros Hev Hc. destruct stream_hyps as (Hok & Hreg & Hseq). rewrite Hev in Hok, Hreg, Hseq.
+  destruct (prefix_inv SP SP_parses pidl (table_pid (rs_pids rs)) (pes_pid (rs_pids rs)) (table_pes_excl (rs_pids rs))
+              pre (fun _ => None) no_pend [] [] [] (EPkt x u k n sp :: post) (init_inv _ _ _) Hok Hreg Hseq)
+    as (s1 & pl1 & pm1 & reg1 & Hinv1 & Hseq1).
+  assert (Hkind : kind_ok (table_pid (rs_pids rs)) (pes_pid (rs_pids rs)) x u).
+  { apply (event_facts SP rs Hwf x u k n sp). rewrite Hev. apply in_or_app. right. left. reflexivity. }
+  specialize (Hseq1 x). cbn [proj] in Hseq1. rewrite Z.eqb_refl in Hseq1.
+  destruct (completing_out SP SP_parses pidl (table_pid (rs_pids rs)) (pes_pid (rs_pids rs)) (table_pes_excl (rs_pids rs))
+              s1 _ pl1 pm1 reg1 x u k n sp _ Hinv1 Hkind Hc Hseq1) as (p0 & Hout).
+  exists p0. split; [exact Hout|]. intros d ds Hd. apply (delivered_at_all pre x u k n sp post d ds Hev). rewrite Hout. exact Hd.
+Qed.
+
+(* per PID, on the delivered list *)
+Theorem data_per_pid_delivered : exists L, demux_all (StreamSpec.stream_bytes rs) = map Ok L /\
+  forall x, filter (on_x x) L = expected_on rs x.
+Proof. exists (expected rs). split; [exact data_exact|exact data_per_pid]. Qed.
 
 End Stream.
 End Final.
